@@ -33,30 +33,31 @@ var c04Positions = []string{"first", "second", "after-expression", "last", "inte
 
 func (c04) Thresholds(tier string) map[string]int64 {
 	th := map[string]int64{
-		"lines":                      15000,
-		"option-groups":              4000,
-		"options":                    10000,
-		"tags":                       8000,
-		"trailing-comments":          3000,
-		"inline:number":              4000,
-		"inline:boolean":             2000,
-		"inline:string":              2000,
-		"display:integer":            1000,
-		"display:negative-zero":      100,
-		"display:non-integral-plain": 500,
-		"display:exponent-zone":      500,
-		"display:big-integer":        200,
-		"display:next-to-an-integer": 1500,
-		"cond-subset:none":           500,
-		"cond-subset:all":            200,
-		"cond-subset:some":           1000,
-		"disabled-options":           2000,
-		"cell:first:expression":      1000,
-		"surrounding-whitespace":     2000,
-		"node-shown-twice":           500,
-		"large-option-group":         150,
-		"long-line":                  300,
-		"inline:unary-on-literal":    800,
+		"lines":                               15000,
+		"option-groups":                       4000,
+		"options":                             10000,
+		"tags":                                8000,
+		"trailing-comments":                   3000,
+		"inline:number":                       4000,
+		"inline:boolean":                      2000,
+		"inline:string":                       2000,
+		"display:integer":                     1000,
+		"display:negative-zero":               100,
+		"display:non-integral-plain":          500,
+		"display:exponent-zone":               500,
+		"display:big-integer":                 200,
+		"display:next-to-an-integer":          1500,
+		"cond-subset:none":                    500,
+		"cond-subset:all":                     200,
+		"cond-subset:some":                    1000,
+		"disabled-options":                    2000,
+		"cell:first:expression":               1000,
+		"surrounding-whitespace":              2000,
+		"node-shown-twice":                    500,
+		"large-option-group":                  150,
+		"long-line":                           300,
+		"string-literals-with-escaped-quotes": 1000,
+		"inline:unary-on-literal":             800,
 	}
 	for _, pos := range c04Positions {
 		for _, cl := range gen.TextClasses() {
@@ -230,7 +231,7 @@ func (p c04) Run(c *core.Ctx) {
 			if r.Chance(1, 40) {
 				// a long line: 20-120 generated texts joined by a harmless separator (thousands of characters,
 				// dozens of inline expressions)
-				for k := r.Range(20, 120); k > 0; k-- {
+				for k := r.Range(20, 700); k > 0; k-- {
 					more, _ := mkLine(true)
 					parts = append(parts, hast.Lit(" x "))
 					parts = append(parts, more...)
@@ -300,6 +301,33 @@ func (p c04) Run(c *core.Ctx) {
 	}
 	if c.WantSample() {
 		c.Sample(map[string]any{"script": scripts[0], "choices": choices, "trace": pair.Trace[:min(len(pair.Trace), 8)]})
+	}
+
+	// ---- string literals that contain escaped quotes (also as their LAST character): whether the value keeps
+	// the backslashes is not settled by the property text, but both quote characters are part of it, and two
+	// occurrences of the same literal are equal
+	{
+		inner := r.Pick("say \\\"hi\\\"", "\\\"", "x\\\"", "\\\"x", "a \\\"b\\\" c", "ends with \\\"")
+		script := "title: Start\n---\nA {\"" + inner + "\"} B\n-> same <<if \"" + inner + "\" == \"" + inner + "\">>\n-> other <<if \"" + inner + "\" == \"" + inner + "z\">>\n===\n"
+		qr, err, pan := mon.Create(nil, "", []string{script})
+		if err != nil || pan != "" {
+			c.Violate("a script with escaped quotes in string literals failed to load", map[string]any{"readers": []string{script}, "error": fmt.Sprint(err), "panic": pan})
+			return
+		}
+		o := qr.Next(0)
+		kept := "A " + strings.ReplaceAll(inner, "\\\\", "\\") + " B"
+		unescaped := "A " + strings.ReplaceAll(inner, "\\\"", "\"") + " B"
+		kept, unescaped = strings.ReplaceAll(kept, "\\\\", "\\"), strings.ReplaceAll(unescaped, "\\\\", "\\")
+		if o.Kind != mon.KLine || (o.Text != kept && o.Text != unescaped) {
+			c.Violate("a string literal with escaped quotes is not rendered with all its characters: "+o.String(), map[string]any{"readers": []string{script}, "accepted": []string{kept, unescaped}})
+			return
+		}
+		g := qr.Next(0)
+		if g.Kind != mon.KOptions || len(g.Opts) != 2 || g.Opts[0].Disabled || !g.Opts[1].Disabled {
+			c.Violate("options conditioned on string literals with escaped quotes are not enabled / disabled as written: "+g.String(), map[string]any{"readers": []string{script}})
+			return
+		}
+		c.Feature("string-literals-with-escaped-quotes")
 	}
 
 	// ---- a line that fails half-way through its text, followed by literal lines and options: whatever
